@@ -117,7 +117,7 @@ def leaves(n):
     return L
 
 
-RECT = ["dense_rect", "block_row", "block_col"]
+RECT = ["dense_rect", "block_row", "block_col", "block_row_identity_first", "block_col_identity_first"]
 
 
 def make_leaf(M, mk, kind, n, tag="a"):
@@ -333,6 +333,13 @@ def make_leaf(M, mk, kind, n, tag="a"):
         b1, r1 = make_leaf(M, mk, "dense_rect", n, p + "b1")
         b2, r2 = make_leaf(M, mk, "identity", n + 1, p + "b2")
         return M.BlockColumnMatrix((b1, b2)), np.concatenate([r1, r2], axis=0)
+    if kind == "block_row_identity_first":
+        # the natural [I A] layout: IdentityMatrix products return their operand itself
+        b2, r2 = make_leaf(M, mk, "dense_rect", n, p + "b2")
+        return M.BlockRowMatrix((M.IdentityMatrix(n), b2)), np.concatenate([eye(mk, n), r2], axis=1)
+    if kind == "block_col_identity_first":
+        b2, r2 = make_leaf(M, mk, "dense_rect", n, p + "b2")
+        return M.BlockColumnMatrix((M.IdentityMatrix(n + 1), b2)), np.concatenate([eye(mk, n + 1), r2], axis=0)
     raise KeyError(kind)
 
 
